@@ -309,7 +309,13 @@ macro_rules! bezier_impl_cubic_axis {
                             None
                         }
                     } else {
-                        Some((-c / b, None))
+                        // The single extremum only counts if it is on the curve
+                        let t = -c / b;
+                        if T::zero() < t && t < T::one() {
+                            Some((t, None))
+                        } else {
+                            None
+                        }
                     };
                 }
 
